@@ -19,6 +19,7 @@ func init() {
 }
 
 func c10(c *Ctx) {
+	c.pageLoopsComplete("complete", "WriteSnapshotTo", "Export")
 	c.walFrameReads("wal-frame/page-after-header")
 	p := c.P
 	c.captureFamily("litefs.(*DB).WriteSnapshotTo", false)
